@@ -1022,6 +1022,7 @@ func (v *FV) applyContract(fr *Frame, st *State, con *Contract, callee *ssa.Func
 		v.oblige("nil", "recv."+mangle(short), pos, "receiver of "+short+" is not nil", st.reach, fmt.Sprintf("(not (= %s 0))", self.T))
 	}
 	env := &ExprEnv{v: v, vars: vars, snap: st.snap, pkg: pkg, reach: st.reach, what: "contract of " + name}
+	var focusPre []Term
 	for i, c := range con.Requires {
 		t, err := env.EvalBool(c.Text)
 		if err != nil {
@@ -1035,6 +1036,11 @@ func (v *FV) applyContract(fr *Frame, st *State, con *Contract, callee *ssa.Func
 			lbl = mangle(short) + "." + lbl
 		}
 		v.oblige("pre@call", lbl, pos, "precondition of "+short+": "+c.Text, st.reach, t)
+		if v.con != nil && len(v.con.Focus) > 0 && !isFocused(v.con, c.Name) {
+			// thin contract: this precondition is generated but not claimed, so it may fail; what the callee ensures is
+			// then only known for calls that did satisfy it (assumed below as pre ==> post, never unconditionally)
+			focusPre = append(focusPre, t)
+		}
 	}
 	pre := st.snap.clone()
 	topAtCall := v.define("topcall", "Int", v.topOf(pre))
@@ -1090,6 +1096,9 @@ func (v *FV) applyContract(fr *Frame, st *State, con *Contract, callee *ssa.Func
 		if err != nil {
 			v.specError(c, err)
 			continue
+		}
+		if len(focusPre) > 0 {
+			t = fmt.Sprintf("(=> (and %s true) %s)", strings.Join(focusPre, " "), t)
 		}
 		v.assume(st.reach, t)
 	}
@@ -1897,4 +1906,14 @@ func (v *FV) lockKey(ownerType, field string, owner Term) Term {
 		v.pre("fnax "+fn, fmt.Sprintf("(assert (forall ((r Int)) (! (and (< (%s r) (- 1000000)) (= (imk_tag (%s r)) %d) (= (inv_%s (%s r)) r)) :pattern ((%s r)))))", fn, fn, v.imkCtr, fn, fn, fn))
 	}
 	return fmt.Sprintf("(%s %s)", fn, owner)
+}
+
+// isFocused: the clause name is one of the clauses a thin contract claims
+func isFocused(con *Contract, name string) bool {
+	for _, f := range con.Focus {
+		if f == name && name != "" {
+			return true
+		}
+	}
+	return false
 }
